@@ -106,6 +106,49 @@ def render_decorated(rec):
         texts = [x for t in texts for x in (t, ins)]
     elif place == "comment-every-assignment":
         texts = [x for j, t in enumerate(texts) for x in ((t, f"# {s}") if j in assigns else (t,))]
+    elif place == "inside-declaration":
+        # every states / parameters block over several lines, a comment after an entry and a comment line between entries
+        new = []
+        for j, (kind, t, bi) in enumerate(ls):
+            if kind == "decl":
+                b = rec["blocks"][bi]
+                head = f'{b["k"]}("{b["comp"]}",' if b["comp"] else f'{b["k"]}('
+                ents = [modelcase._decl(e) for e in b["entries"]]
+                body = []
+                for n, e in enumerate(ents):
+                    last = n == len(ents) - 1
+                    body.append(f"    {e}{'' if last else ','} # {s}" if (n + k) % 2 == 0 else f"    {e}{'' if last else ','}")
+                    if not last and (n + k) % 3 == 0:
+                        body.append(f"    # {s}")
+                new.extend([head, f"    # {s}"] + body + [")"])
+            else:
+                new.append(texts[j])
+        texts = new
+    elif place == "inside-header":
+        new = []
+        for j, (kind, t, bi) in enumerate(ls):
+            if kind == "xheader":
+                new.extend([t[:-1] + f" # {s}", ")"])
+            elif kind == "decl" and rec["blocks"][bi]["comp"]:
+                cut = t.index(",") + 1
+                new.extend([t[:cut] + f" # {s}", "   " + t[cut:]])
+            else:
+                new.append(texts[j])
+        texts = new
+    elif place in ("comment-in-continuation", "comment-in-parentheses"):
+        new, done = [], 0
+        for j, t in enumerate(texts):
+            if j in assigns:
+                marks = (" + ", " - ", " * ", " / ") if place == "comment-in-continuation" else ("( ", "(")
+                for op in marks:
+                    pos = t.find(op, t.index("=") + 1)
+                    if pos > 0 and (done + k) % 2 == 0:
+                        cut = pos + len(op.rstrip())
+                        t = t[:cut] + f" # {s}\n      " + t[cut:]
+                        break
+                done += 1
+            new.append(t)
+        texts = new
     elif place == "unit-annotation":
         texts = [t + " # mV" if j in assigns else t for j, t in enumerate(texts)]
     text = eol.join(texts)
